@@ -1486,7 +1486,10 @@ func runPOPGUARD(c *Ctx) {
 								return true
 							}
 							return false
-						}, func(i ssa.Instruction) bool { return i == first }, func(ssa.Instruction) bool { return false })
+						}, func(i ssa.Instruction) bool { return i == first }, func(i ssa.Instruction) bool {
+							// in a helper shared by the two steps each pop exposes another entry: what was known is gone
+							return shared[fn] && isPop(i)
+						})
 						atCalls := len(P.Callers[fn]) > 0
 						for _, cs := range P.Callers[fn] {
 							if len(stops) == 0 {
